@@ -11,11 +11,17 @@ def norm_ev(ev):
     return ev
 
 
-def normalize(recs, ix, strip_any_for=('NT', 'XC'), keep_reads=False, pending=False):
+def id_names(ix):
+    """{machine: {id: state name}} for the family the index was built for"""
+    return {m['name']: {i: n for n, i in m['_ids'].items()} for m in ix.order}
+
+
+def normalize(recs, ix, strip_any_for=('NT', 'XC'), keep_reads=False, pending=False, names=False):
     """observable behaviour in the sense of C13: every guard, action, entry, exit, no_transition and
     exception_caught invocation with order and arguments, active ids after every operation, handled / zero
     status; harness-only records and family-specific presentation are removed (see DESIGN Appendix A)"""
     cg = {g['name'] for g in ix.gsites if g['cg_src'] is not None}
+    idn = id_names(ix) if names else None
     out = []
     last_call = None
     for r in recs:
@@ -30,7 +36,10 @@ def normalize(recs, ix, strip_any_for=('NT', 'XC'), keep_reads=False, pending=Fa
                 ev = norm_ev(ev)
             elif ev is not None and ev.startswith('W/'):
                 ev = norm_ev(ev)
-            out.append((k, r.site, r.m, ev, r.id, r.ok, r.v if k in ('G', 'NT') else 0))
+            v = r.v if k in ('G', 'NT') else 0
+            if names and k == 'NT':
+                v = idn.get(r.site, {}).get(r.v, r.v)      # state ids -> names (numbering is family specific)
+            out.append((k, r.site, r.m, ev, r.id, r.ok, v))
         elif k == 'RET':
             x = r.extra[0]
             if x == '-':
@@ -40,7 +49,10 @@ def normalize(recs, ix, strip_any_for=('NT', 'XC'), keep_reads=False, pending=Fa
                 out.append(('RET', bool(rc & 1), rc == 0))
         elif k == 'SNAP':
             levels, queues, extras = parse_snap(r)
-            lv = tuple(sorted((p, tuple(v[0])) for p, v in levels.items()))
+            if names:
+                lv = tuple(sorted((p, tuple(idn.get(p.split('/')[-1], {}).get(x, x) for x in v[0])) for p, v in levels.items()))
+            else:
+                lv = tuple(sorted((p, tuple(v[0])) for p, v in levels.items()))
             if last_call == 'stop':
                 continue        # what introspection answers after stop() is outside every statement
             pend = tuple(sorted((p, q[0] + max(q[1], 0)) for p, q in queues.items()))
